@@ -1309,6 +1309,9 @@ def run(ctx):
                for n in ("bcrypt", "des_crypt") for v in ("none", "None", "") for c in OPTION_CATS]
     ocases += [{"part": "options", "hasher": n, "option": o, "value": v, "cat": None, "nullish": True, "bare": True}
                for n in ("bcrypt", "sha256_crypt") for o, v in (("truncate_error", "none"), ("vary_rounds", None))]
+    # (vary_rounds is not a using() option of its own any more, but a documented context option: scheme- and category-level)
+    ocases += [{"part": "options", "hasher": n, "option": "vary_rounds", "value": v, "cat": c}
+               for n in ("sha256_crypt", "pbkdf2_sha256") for v in (1, 0.5) for c in OPTION_CATS]
     tasks += [{"kind": "options", "cases": ocases[i::16]} for i in range(16)]
     ctx.cov["option_cases"] = len(ocases)
     tasks.append({"kind": "lazy_iter"})
